@@ -63,6 +63,8 @@ class Sym:
             k = pr[0]
             if k == "*":
                 continue
+            if k == "." and pr[3].startswith(("std::boxed::Box", "std::ptr::", "core::ptr::", "alloc::boxed::Box")):
+                continue  # Box / Unique / NonNull internals
             if k == ".":
                 # (x op y).0 of checked arithmetic
                 if e[0] == "bin" and pr[1] == 0:
